@@ -19,6 +19,8 @@ structure SpecSt where
   lastChange : Nat := 0               -- fair round (since the last disturbance) in which a table last changed
   flightsN : List ((Nat × Nat) × Nat) := []  -- (u, w) ↦ number of advertisement fetches started by `snap`
   awaiting : List (Nat × Nat) := []   -- (u, w): the reply to u's latest fetch of w's advertisement is still outstanding
+  text : List (Nat × String) := []    -- the advertisement text each router was last seen to serve
+  copy : List ((Nat × Nat) × String) := []  -- (u, w): w's advertisement text when u last started to fetch it
 
 structure St where
   net : Net := []
@@ -30,6 +32,9 @@ structure St where
   aseq : List ((Nat × Nat) × Nat) := []
   /-- replies in flight for (u, w): (number, advertisement content) in the order the fetches started -/
   flights : List ((Nat × Nat) × List (Nat × List AdvEntry)) := []
+  /-- identifiers of the advertisement fetches started so far (stand for the sequence numbers, which
+      strictly increase per neighbour state) -/
+  fid : Nat := 0
   sp : SpecSt := {}
 
 def aseqOf (s : St) (p : Nat × Nat) : Nat := ((s.aseq.find? (·.1 == p)).map (·.2)).getD 0
@@ -121,7 +126,7 @@ def annFails (who : String) (got : String) : List SpecFail :=
     [⟨"advert-change-announced", "seq", s!"{who}: the advertisement changed but the advertisement sequence number did not advance: {got}"⟩]
   else []
 
-def step (s : St) (op : String) (got : String) : StepResult St :=
+def stepCore (s : St) (op : String) (got : String) : StepResult St :=
   let sp := s.sp
   match op.splitOn " " with
   | ["new", ns] =>
@@ -191,9 +196,11 @@ def step (s : St) (op : String) (got : String) : StepResult St :=
         -- current advertisement) only if that number is newer than the remembered AdvertSeq
         if a < n && b < n && a != b && s.links.contains (a, b) then
           let net1 := s.net.ping a b (b + 1)
-          let sv := s.ver.getD b 1
+          let sv := s.fid + 1
           let adv := ((s.net.get? b).map (·.rib.advert)).getD []
-          let starts := syncStartsFetch (aseqOf s (a, b)) sv
+          -- whether the announced number is newer than what a remembers is decided by the routers' real
+          -- sequence numbers (boot time + bumps): taken from the implementation, judged by the spec side
+          let starts := parseField got "started" == some "1"
           let (net', dirty) := if starts then (net1.applyAdvert a b adv).getD (net1, false) else (net1, false)
           let ru := (net'.get? a).getD (Router.start 0)
           let selfKey := s.keys.getD a 0
@@ -208,8 +215,9 @@ def step (s : St) (op : String) (got : String) : StepResult St :=
             (if ru.rib.entries.any (fun e => e.best.low1 == e.best.low2 && e.best.low1 < inf) then ["tie-break"] else []) ++
             (if ru.rib.entries.any (fun e => e.best.low1 ≥ 8) then ["counting-up"] else [])
           let s1 := { s with net := net', sp := sp' }
-          let s1 := if starts then setAseq s1 (a, b) sv else s1
-          { st := bumpVer s s1 a, expected := some (dumpRouter s.keys ru ++ " ann=ok"), spec := specFails ++ annFails s!"r{a}" got, cov := cov }
+          let s1 := if starts then { setAseq s1 (a, b) sv with fid := sv } else s1
+          { st := bumpVer s s1 a, expected := some (dumpRouter s.keys ru ++ s!" started={if starts then 1 else 0} ann=ok"),
+            spec := specFails ++ annFails s!"r{a}" got, cov := cov }
         else { st := { s with sp := sp' }, expected := some "skip", spec := specFails, cov := ["fetch-skip"] }
       else if lk == "dead" || lk == "fetchrace" then
         -- fetchrace: advertDataHandler stored the advertisement, the dead sweep removes the neighbour, then
@@ -240,13 +248,13 @@ def step (s : St) (op : String) (got : String) : StepResult St :=
           else { sp with nbr := nbr }
         if a < n && b < n && a != b && s.links.contains (a, b) then
           let net1 := s.net.ping a b (b + 1)
-          let sv := s.ver.getD b 1
+          let sv := s.fid + 1
           let adv := ((s.net.get? b).map (·.rib.advert)).getD []
-          let starts := syncStartsFetch (aseqOf s (a, b)) sv
+          let starts := startedI
           let ru := (net1.get? a).getD (Router.start 0)
           let s1 := { s with net := net1, sp := sp' }
           let s1 := if starts then
-              { setAseq s1 (a, b) sv with flights := ((a, b), flightsOf s (a, b) ++ [(sv, adv)]) :: s.flights.filter (·.1 != (a, b)) }
+              { setAseq s1 (a, b) sv with fid := sv, flights := ((a, b), flightsOf s (a, b) ++ [(sv, adv)]) :: s.flights.filter (·.1 != (a, b)) }
             else s1
           { st := s1, expected := some (dumpRouter s.keys ru ++ s!" started={if starts then 1 else 0} ann=ok"),
             spec := specFails ++ annFails s!"r{a}" got, cov := [if starts then "snap-started" else "snap-not-newer"] }
@@ -321,6 +329,99 @@ def step (s : St) (op : String) (got : String) : StepResult St :=
              (if hasUnreach then ["unreachable-withdrawn"] else []),
       nontrivial := converged && sp.n ≥ 3 }
   | _ => { st := s, expected := some "bad-op" }
+
+def firstTok (t : String) : String := (t.splitOn " ").headD ""
+
+def setText (sp : SpecSt) (u : Nat) (t : String) : SpecSt :=
+  if t.startsWith "adv=" then { sp with text := (u, t) :: sp.text.filter (·.1 != u) } else sp
+
+def textOf (sp : SpecSt) (u : Nat) : Option String := (sp.text.find? (·.1 == u)).map (·.2)
+
+/-- texts of all routers from a `check` / `tick` output -/
+def setTexts (sp : SpecSt) (got : String) : SpecSt :=
+  ((List.range (got.splitOn " ; ").length).zip (got.splitOn " ; ")).foldl (fun sp (i, p) =>
+    setText sp i (firstTok (" ".intercalate ((p.splitOn " ").drop 1)))) sp
+
+/-- routers of the model whose neighbour `w` is on a link that is down -/
+def staleNbrs (s : St) (u : Nat) : List Nat :=
+  match s.net.get? u with
+  | some ru => (List.range s.net.length).filter fun w =>
+      w != u && !s.links.contains (u, w) && (aget ru.nbrs (s.keys.getD w 0)).isSome
+  | none => []
+
+def step (s : St) (op : String) (got : String) : StepResult St :=
+  let sp := s.sp
+  match op.splitOn " " with
+  | ["tick"] =>
+    -- more than a dead interval passes; heartbeats (unchanged numbers) over the up links; then every router
+    -- runs its deadcheck sweep: only neighbours on links that are down are removed
+    if s.net.isEmpty && sp.n == 0 then { st := s, expected := some "skip" } else
+    let s1 := (List.range s.net.length).foldl (fun (s : St) u =>
+      let ws := staleNbrs s u
+      let net' := ws.foldl (fun (net : Net) w => match net.dead u w with | some (n2, _) => n2 | none => net) s.net
+      bumpVer s { s with net := net', aseq := s.aseq.filter fun p => !(p.1.1 == u && ws.contains p.1.2) } u) s
+    let staleS := sp.nbr.filter fun p => !sp.links.contains p
+    let sp1 := if got == "skip" || staleS.isEmpty then sp else
+      disturb { sp with nbr := sp.nbr.filter (fun p => sp.links.contains p),
+                        awaiting := sp.awaiting.filter (fun p => sp.links.contains p),
+                        copy := sp.copy.filter (fun c => sp.links.contains c.1) }
+    let r := stepCore { s1 with sp := sp1 } "check" got
+    { r with st := { r.st with sp := setTexts r.st.sp got },
+             cov := (if staleS.isEmpty then ["tick-stable-links"] else ["tick-removes-stale"]) ++ r.cov }
+  | ["restart", x] =>
+    match x.toNat? with
+    | some x =>
+      if !(x < s.net.length) then { st := s, expected := some "skip" } else
+      let id := s.keys.getD x 0
+      let specFails := if got == "skip" then [] else advFiniteFails s!"r{x}" got
+      let sp1 := if got == "skip" then sp else
+        setText (disturb { sp with nbr := sp.nbr.filter (·.1 != x), awaiting := sp.awaiting.filter (·.1 != x),
+                                    copy := sp.copy.filter (·.1.1 != x), flightsN := sp.flightsN.filter (·.1.1 != x) }) x (firstTok got)
+      let r := Router.start id
+      { st := { s with net := s.net.setAt x r, aseq := s.aseq.filter (·.1.1 != x), flights := s.flights.filter (·.1.1 != x), sp := sp1 },
+        expected := some (dumpRouter s.keys r ++ " ann=ok"), spec := specFails, cov := ["restart"] }
+    | none => { st := s, expected := some "bad-op" }
+  | _ =>
+    let r := stepCore s op got
+    let sp2 := r.st.sp
+    if got == "skip" then r else
+    match op.splitOn " " with
+    | ["check"] => { r with st := { r.st with sp := setTexts sp2 got } }
+    | "sweep" :: a :: wsT :: _ =>
+      match a.toNat?, (wsT.splitOn ",").mapM String.toNat? with
+      | some a, some ws =>
+        { r with st := { r.st with sp := setText { sp2 with copy := sp2.copy.filter fun c => !(c.1.1 == a && ws.contains c.1.2) } a (firstTok got) } }
+      | _, _ => r
+    | kind :: a :: b :: _ =>
+      match a.toNat?, b.toNat? with
+      | some a, some b =>
+        let sp3 := setText sp2 a (firstTok got)
+        if kind == "dead" || kind == "fetchrace" then
+          { r with st := { r.st with sp := { sp3 with copy := sp3.copy.filter (·.1 != (a, b)) } } }
+        else if kind == "fetch" || kind == "snap" then
+          let started := parseField got "started" == some "1"
+          let cur := (sp.copy.find? (·.1 == (a, b))).map (·.2)
+          let tb := textOf sp b
+          if started then
+            let copy' := match tb with
+              | some t => ((a, b), t) :: sp3.copy.filter (·.1 != (a, b))
+              | none => sp3.copy.filter (·.1 != (a, b))
+            { r with st := { r.st with sp := { sp3 with copy := copy' } } }
+          else
+            -- no fetch although what a holds is not what b serves now (b's advertisement changed, or b is a
+            -- new instance after a restart, and the announcement did not get through as newer)
+            let fails : List SpecFail :=
+              if kind == "fetch" && !sp.awaiting.contains (a, b) then
+                match tb with
+                | some t => if cur == some t then [] else
+                    [⟨"changed-advert-is-fetched", "not-fetched",
+                      s!"r{a} does not fetch r{b}'s advertisement although it changed since r{a} last fetched it: r{a} holds {cur.getD "nothing"}, r{b} serves {t}"⟩]
+                | none => []
+              else []
+            { r with st := { r.st with sp := sp3 }, spec := r.spec ++ fails }
+        else { r with st := { r.st with sp := sp3 } }
+      | _, _ => r
+    | _ => r
 
 end C18Drv
 
